@@ -20,3 +20,9 @@ Proof. unfold info_prov. destruct (i_perm i) eqn:E; cbn; reflexivity. Qed.
 
 Lemma bridge_flags : gen_unflatten_is_transcribed = true /\ gen_return_uses_results_linear = true.
 Proof. split; reflexivity. Qed.
+
+Lemma bridge_duplicates : gen_duplicates_rejected_by_equality = true.
+Proof. reflexivity. Qed.
+
+Lemma bridge_prologue : gen_prologue_is_transcribed = true.
+Proof. reflexivity. Qed.
